@@ -21,6 +21,11 @@ theorem service_guards_pinned : Irismod.Gen.PureService.guards =
      "AddEarnedFee: hasNeg",
      "Slash: hasNeg",
      "Slash: err := k.bankKeeper.SendCoinsFromModuleToModule(ctx, types.DepositAccName, k.feeCollectorName, slashedCoins); err != nil",
+     "Keeper.RefundEarnedFees: err := k.bankKeeper.SendCoinsFromModuleToAccount( ctx, types.RequestAccName, provider, sdk.NewCoins(earnedFee), ); err != nil",
+     "Keeper.RefundServiceFees: consumer, err := sdk.AccAddressFromBech32(request.Consumer); err != nil",
+     "Keeper.RefundServiceFees: err := k.bankKeeper.SendCoinsFromModuleToAccount( ctx, types.RequestAccName, consumer, request.ServiceFee, ); err != nil",
+     "Keeper.FilterServiceProviders: exchangedPrice, rawDenom, err := k.GetExchangedPrice(ctx, consumer, binding); err != nil",
+     "Keeper.FilterServiceProviders: provider, err := sdk.AccAddressFromBech32(binding.Provider); err != nil",
      "Keeper.WithdrawEarnedFees: !owner.Equals(providerOwner)",
      "Keeper.WithdrawEarnedFees: !found",
      "Keeper.WithdrawEarnedFees: !found",
@@ -64,6 +69,54 @@ theorem service_guards_pinned : Irismod.Gen.PureService.guards =
      "Keeper.RefundDeposit: currentTime.Before(refundableTime)",
      "Keeper.RefundDeposit: err := k.bankKeeper.SendCoinsFromModuleToAccount( ctx, types.DepositAccName, bindingOwner, binding.Deposit, ); err != nil",
      "Keeper.validateDeposit: len(deposit) != 1 || deposit[0].Denom != baseDenom"] := rfl
+
+/-- every statement of these functions executed for its effect — a call whose result is dropped (store and bank
+writes, queue moves, hooks) or a write to a record field — with its nesting depth, in source order: a write that is
+dropped, duplicated, reordered or moved into or out of a branch breaks this -/
+theorem service_effects_pinned : Irismod.Gen.PureService.effects =
+    ["AddEarnedFee: d0 k.SetEarnedFees(ctx, provider, earnedFees.Add(earnedFee...))",
+     "AddEarnedFee: d0 k.SetOwnerEarnedFees(ctx, owner, ownerEarnedFees.Add(earnedFee...))",
+     "Slash: d0 binding.Deposit = deposit",
+     "Slash: d2 binding.Available = false",
+     "Slash: d2 binding.DisabledTime = ctx.BlockHeader().Time",
+     "Slash: d0 k.SetServiceBinding(ctx, binding)",
+     "Keeper.SetEarnedFees: d1 store.Set(types.GetEarnedFeesKey(provider, fees[i].Denom), bz)",
+     "Keeper.SetOwnerEarnedFees: d0 k.DeleteOwnerEarnedFees(ctx, owner)",
+     "Keeper.SetOwnerEarnedFees: d1 store.Set(types.GetOwnerEarnedFeesKey(owner, fees[i].Denom), bz)",
+     "Keeper.DeleteEarnedFees: d0 iterator.Next()",
+     "Keeper.DeleteEarnedFees: d1 store.Delete(iterator.Key())",
+     "Keeper.DeleteOwnerEarnedFees: d0 iterator.Next()",
+     "Keeper.DeleteOwnerEarnedFees: d1 store.Delete(iterator.Key())",
+     "Keeper.RefundEarnedFees: d0 iterator.Next()",
+     "Keeper.RefundEarnedFees: d1 k.cdc.MustUnmarshal(iterator.Value(), &earnedFee)",
+     "Keeper.RefundServiceFees: d0 iterator.Next()",
+     "Keeper.RefundServiceFees: d1 k.cdc.MustUnmarshal(iterator.Value(), &requestID)",
+     "Keeper.WithdrawEarnedFees: d1 k.DeleteEarnedFees(ctx, provider)",
+     "Keeper.WithdrawEarnedFees: d2 k.DeleteOwnerEarnedFees(ctx, owner)",
+     "Keeper.WithdrawEarnedFees: d2 k.SetOwnerEarnedFees(ctx, owner, ownerEarnedFees.Sub(earnedFees...))",
+     "Keeper.WithdrawEarnedFees: d1 iterator.Next()",
+     "Keeper.WithdrawEarnedFees: d2 k.DeleteEarnedFees(ctx, provider)",
+     "Keeper.WithdrawEarnedFees: d1 k.DeleteOwnerEarnedFees(ctx, owner)",
+     "Keeper.AddServiceBinding: d0 k.SetServiceBinding(ctx, svcBinding)",
+     "Keeper.AddServiceBinding: d0 k.SetOwnerServiceBinding(ctx, svcBinding)",
+     "Keeper.AddServiceBinding: d0 k.SetPricing(ctx, serviceName, provider, parsedPricing)",
+     "Keeper.AddServiceBinding: d1 k.SetOwner(ctx, provider, owner)",
+     "Keeper.AddServiceBinding: d1 k.SetOwnerProvider(ctx, owner, provider)",
+     "Keeper.UpdateServiceBinding: d1 binding.QoS = qos",
+     "Keeper.UpdateServiceBinding: d1 binding.Deposit = binding.Deposit.Add(deposit...)",
+     "Keeper.UpdateServiceBinding: d1 binding.Pricing = pricing",
+     "Keeper.UpdateServiceBinding: d1 k.SetPricing(ctx, serviceName, provider, parsedPricing)",
+     "Keeper.UpdateServiceBinding: d1 binding.Options = options",
+     "Keeper.UpdateServiceBinding: d1 k.SetServiceBinding(ctx, binding)",
+     "Keeper.DisableServiceBinding: d0 binding.Available = false",
+     "Keeper.DisableServiceBinding: d0 binding.DisabledTime = ctx.BlockHeader().Time",
+     "Keeper.DisableServiceBinding: d0 k.SetServiceBinding(ctx, binding)",
+     "Keeper.EnableServiceBinding: d1 binding.Deposit = binding.Deposit.Add(deposit...)",
+     "Keeper.EnableServiceBinding: d0 binding.Available = true",
+     "Keeper.EnableServiceBinding: d0 binding.DisabledTime = time.Time{}",
+     "Keeper.EnableServiceBinding: d0 k.SetServiceBinding(ctx, binding)",
+     "Keeper.RefundDeposit: d0 binding.Deposit = sdk.Coins{}",
+     "Keeper.RefundDeposit: d0 k.SetServiceBinding(ctx, binding)"] := rfl
 
 /-- `LegacyNewDecFromInt(n).Mul(r).TruncateInt()` with the library's range checks, on a non-negative amount and
 rate: the service model's `mulTrunc` whenever the two checks pass (they do for every amount below 2^196 and rate ≤ 1:
